@@ -8,8 +8,9 @@ An outcome that no correction consults cannot be corrected.
 * R-C13-wirecover  only for the instances confirmed by reading (``_hadamard_ppm``, ``_pauli_ctrl_pauli_ppm``): every
                    wire that is an argument of a mid-circuit measurement also receives a cond-guarded operator.  Any
                    other measuring rule is an evidence note, never a violation.
-* R-C13-burn       a rule that measures a wire it allocated must allocate it ``restored=False`` and declare a
-                   burnable/garbage work wire (pairs with R-C11-work), or measure with ``reset=True``.
+* R-C13-burn       a rule that measures a wire it allocated must allocate it ``restored=False`` and declare the work-wire
+                   kind computed from (state, restored) as in R-C11-work; in the confirmed measurement-based rules the
+                   ancilla must be allocated ``state="zero"`` (kind burnable); or measure with ``reset=True``.
 """
 
 from __future__ import annotations
@@ -213,8 +214,9 @@ def check(ctx):
              "containers) into the predicate of a qp.cond(...) or into a return value; measure(..., reset=True) whose outcome is discarded is a reset")
     rep.rule("R-C13-wirecover", "in _hadamard_ppm and _pauli_ctrl_pauli_ppm (instances confirmed by reading) every wire passed to a mid-circuit measurement is also the "
              "target of at least one qp.cond(...)-guarded operator; other measuring rules are reported as unconfirmed instances, never as violations")
-    rep.rule("R-C13-burn", "a function that measures a wire of its own `with allocate(...) as w` register must allocate it restored=False and the rule must declare a "
-             "burnable/garbage work wire, unless the measurement resets the wire")
+    rep.rule("R-C13-burn", "a function that measures a wire of its own `with allocate(...) as w` register must allocate it restored=False and the rule must declare the "
+             "kind computed from (state, restored) — (zero,False) burnable, (any,False) garbage — unless the measurement resets the wire; in _hadamard_ppm and "
+             "_pauli_ctrl_pauli_ppm, whose outcomes drive corrections of an identity valid for a |0> ancilla only, the state must be 'zero'")
     rep.assume("outcome flow is followed flow-insensitively through assignments, container stores, append/extend and loops inside the function that measures")
     rep.assume("which Pauli each correction applies on the 2^k outcome branches is not decided (stabilizer calculation)")
     sc = get_scanner(ix)
@@ -351,16 +353,26 @@ def check(ctx):
                                 f"{ri.qualname}: the work wire {site.target} allocated with restored=True ({call}) is measured ({norm(hits[0]['call'])[:50]}) and left in an "
                                 "outcome-dependent state: it cannot be handed back restored — allocate restored=False and declare it burnable, or reset it",
                                 line=site.node.lineno)
-            elif ri.work_wires is None or (lit and not any(decl.get(k) for k in ("burnable", "garbage"))):
+            elif site.state is None:
+                rep.unknown("R-C13-burn", where, "state= is not a literal")
+            elif site.state != "zero" and (site.module, site.func) in CONFIRMED:
+                # the measurement-based identities of the confirmed rules hold for an ancilla prepared in |0> only
+                if key not in seen:
+                    rep.refuted("R-C13-burn", ri.module.relpath, ri.qualname, f"{call} state={site.state!r} measured by {norm(hits[0]['call'])[:50]}",
+                                f"{ri.qualname}: the work wire {site.target} is allocated in state {site.state!r} ({call}) but its measurement outcomes "
+                                f"({norm(hits[0]['call'])[:50]}) drive the corrections of a measurement-based identity that holds only for an ancilla prepared in |0>: "
+                                "allocate state='zero', restored=False (kind burnable)", line=site.node.lineno)
+            elif ri.work_wires is None or (lit and not decl.get(site.kind)):
+                # kind from (state, restored) exactly as R-C11-work: (zero,False) -> burnable, (any,False) -> garbage
                 if key not in seen:
                     have = norm(ri.work_wires)[:50] if ri.work_wires is not None else "no work_wires="
                     rep.refuted("R-C13-burn", ri.module.relpath, ri.qualname, f"{call} declared {have}",
-                                f"{ri.qualname}: measures the work wire {site.target} it allocates restored=False ({call}) but declares {have}: a burnable/garbage "
-                                "work wire must be declared", line=site.node.lineno)
+                                f"{ri.qualname}: measures the work wire {site.target} it allocates with state={site.state!r}, restored=False ({call}: kind {site.kind}) "
+                                f"but declares {have}: a {site.kind} work wire must be declared", line=site.node.lineno)
             elif not lit:
                 rep.unknown("R-C13-burn", where, "work_wires= is not a literal dict")
             else:
-                rep.proved("R-C13-burn", where, f"restored=False and declared {norm(ri.work_wires)[:40]}")
+                rep.proved("R-C13-burn", where, f"state={site.state!r}, restored=False (kind {site.kind}) and declared {norm(ri.work_wires)[:40]}")
             seen.add(key)
     rep.floor("rules that measure a wire they allocate", n_burn, FLOOR_BURN)
     rep.extra["c13_counts"] = {"outcomes": n_defs, "measuring_functions": sum(1 for fl in flows.values() if fl.defs), "burn_instances": n_burn}
